@@ -21,7 +21,7 @@ CONFIG = {
     "level": "exploration",
     "shards": {"quick": 16, "thorough": 16},
     "timeout_s": {"quick": 900, "thorough": 5400},
-    "rule": "case = static function (1-4 parameters; calls into distributions/combinators) or distribution x a stored/extra argument split x a form {closure, closure with keyword arguments, partial_apply, handle_kwargs} x every GFI op, each compared under the same key with the underlying function on the full positional arguments. non-trivial: >=1 stored and >=1 extra argument and the op is an edit for >=1 comparison; distinct by (AST shape, form, split, op).",
+    "rule": "case = static function (1-4 parameters; calls into distributions/combinators) or distribution x a stored/extra argument split x a form {closure, closure with keyword arguments, partial_apply, partial_apply then keyword closure, handle_kwargs} x every GFI op, each compared under the same key with the underlying function on the full positional arguments. non-trivial: >=1 stored and >=1 extra argument and the op is an edit for >=1 comparison; distinct by (AST shape, form, split, op).",
     "reach_anchors": [f"{GF}:GenerativeFunctionClosure.simulate", f"{GF}:GenerativeFunctionClosure.generate", f"{GF}:GenerativeFunctionClosure.assess", f"{GF}:GenerativeFunctionClosure.edit", f"{GF}:GenerativeFunctionClosure.project", f"{GF}:IgnoreKwargs.simulate", "genjax._src.generative_functions.static:StaticGenerativeFunction.handle_kwargs", "genjax._src.generative_functions.static:StaticGenerativeFunction.partial_apply"],
     "reach_required": [f"{GF}:GenerativeFunctionClosure.simulate", f"{GF}:GenerativeFunctionClosure.generate", f"{GF}:GenerativeFunctionClosure.assess", f"{GF}:GenerativeFunctionClosure.edit", "genjax._src.generative_functions.static:StaticGenerativeFunction.handle_kwargs", "genjax._src.generative_functions.static:StaticGenerativeFunction.partial_apply"],
     "counters_required": ["closure_comparisons"],
@@ -113,7 +113,7 @@ def one_case(ctx, rng, ci):
     split = int(rng.integers(0, nparams + 1))
     forms = ["closure"]
     if not use_dist:
-        forms += ["partial_apply", "kwargs", "handle_kwargs"]
+        forms += ["partial_apply", "kwargs", "handle_kwargs", "pa_kwargs"]
     elif pnames and node.name not in ("flip",):
         forms += ["kwargs"]
     form = str(rng.choice(forms))
@@ -125,8 +125,15 @@ def one_case(ctx, rng, ci):
     elif form == "partial_apply":
         wrapped = gf.partial_apply(*stored)
         call_args = extra
-    elif form == "kwargs":
-        # the last k parameters go in as keyword arguments of the closure
+    elif form in ("kwargs", "pa_kwargs"):
+        # the last k parameters go in as keyword arguments of the closure; pa_kwargs: the closure
+        # is made from the partially applied function (stored positional values live in the
+        # source closure, keyword values in the GenerativeFunctionClosure)
+        if form == "pa_kwargs" and split == 0:
+            split = int(rng.integers(1, nparams)) if nparams >= 2 else 0
+            stored, extra = ra[:split], ra[split:]
+            if split == 0:
+                form = "kwargs"
         k = int(rng.integers(1, nparams - split + 1)) if nparams - split >= 1 else 0
         if k == 0:
             form = "closure"
@@ -134,7 +141,7 @@ def one_case(ctx, rng, ci):
             call_args = extra
         else:
             kw = {pnames[i]: ra[i] for i in range(nparams - k, nparams)}
-            wrapped = gf(*stored, **kw)
+            wrapped = gf.partial_apply(*stored)(**kw) if form == "pa_kwargs" else gf(*stored, **kw)
             call_args = ra[split : nparams - k]
     else:  # handle_kwargs: GFI methods take ((args), {kwargs})
         k = int(rng.integers(0, nparams + 1))
@@ -216,12 +223,12 @@ def one_case(ctx, rng, ci):
     except Exception as e:
         ctx.reject("underlying-edit:" + common.exc_mechanism(e))
         t0 = None
-    if t0 is not None and form in ("closure", "kwargs", "handle_kwargs"):
+    if t0 is not None and form in ("closure", "kwargs", "pa_kwargs", "handle_kwargs"):
         if form == "handle_kwargs":
             kk = len(kw)
             ad = (Diff.unknown_change(tuple(rn[: nparams - kk])), Diff.unknown_change({pnames[i]: rn[i] for i in range(nparams - kk, nparams)}))
             base_tr = tr1 if tr1 is not None else None
-        elif form == "kwargs":
+        elif form in ("kwargs", "pa_kwargs"):
             kk = len(kw)
             ad = Diff.unknown_change(tuple(rn[split : nparams - kk]))
             base_tr = tr1
@@ -229,12 +236,14 @@ def one_case(ctx, rng, ci):
             ad = Diff.unknown_change(tuple(rn[split:]))
             base_tr = tr1
         # stored / keyword arguments cannot change through a closure: only compare when they did not
-        unchanged_fixed = all(engine.args_equal((args[i],), (new_args[i],)) for i in range(nparams) if i < split or (form == "kwargs" and pnames[i] in kw))
-        if not unchanged_fixed and form in ("closure", "kwargs"):
+        unchanged_fixed = all(engine.args_equal((args[i],), (new_args[i],)) for i in range(nparams) if i < split or (form in ("kwargs", "pa_kwargs") and pnames[i] in kw))
+        if not unchanged_fixed and form in ("closure", "kwargs", "pa_kwargs"):
             # the stored / keyword values changed: the closure that carries the NEW values edits
             # the old trace, which must equal the underlying edit with the full new arguments
             if form == "closure":
                 wrapped = gf(*rn[:split])
+            elif form == "pa_kwargs":
+                wrapped = gf.partial_apply(*rn[:split])(**{pnames[i]: rn[i] for i in range(nparams - len(kw), nparams)})
             else:
                 wrapped = gf(*rn[:split], **{pnames[i]: rn[i] for i in range(nparams - len(kw), nparams)})
             ctx.count("closure_rebuilt_with_new_stored_args")
@@ -265,7 +274,7 @@ def one_case(ctx, rng, ci):
         term = obs.gen_selection(rng, node, depth=1)
         sel = obs.build_selection(term)
         p0 = float(np.asarray(gf.project(key, tr0, sel)))
-        if form in ("closure", "kwargs") and tr1 is not None:
+        if form in ("closure", "kwargs", "pa_kwargs") and tr1 is not None:
             out = guarded("project", lambda: wrapped.project(key, tr1, sel))
             if out is not None:
                 _cmp(ctx, case, form, "project", float(np.asarray(out)), p0, "weight", hist)
